@@ -407,7 +407,89 @@ def rule_components(ctx):
                 stats['groups'], floor=85, samples=stats['samples'])
 
 
+def rule_com_variations(ctx):
+    """R20.7: moving to the centre of mass shifts every variational configuration by the matching derivative of the
+    centre of mass. With X = sum m x and M = sum m the centre of mass is X/M; its first derivative along a variation
+    (dm_i, dx_i) and its mixed second derivative along two first-order variations and their second-order particle are
+    obtained by differentiating sum_i (m_i + ...)(x_i + ...)/(M + ...). The loops of reb_simulation_move_to_com must add up
+    exactly those summands, with totals (dm, dma, dmb, ddm) that come from completed loops over the right member."""
+    import sympy as sp
+    from . import reductions as R
+    tu = cfront.load_tu('tools.c')
+    fn = tu.func('reb_simulation_move_to_com')
+    n = 0
+    samples = []
+    M = sp.Symbol('M', positive=True)
+    m, x, v = sp.symbols('m x v', real=True)
+    # per-particle symbols of the variational particles: first order (d), first order a/b, second order (ab)
+    S = {k: sp.Symbol(k, real=True) for k in ('dm', 'dx', 'dv', 'am', 'ax', 'av', 'bm', 'bx', 'bv', 'abm', 'abx', 'abv', 'DM', 'DMA', 'DMB', 'DDM')}
+    ea, eb = sp.symbols('ea eb')
+
+    def spec(order, q, dq, aq, bq, abq):
+        if order == 1:
+            e = (m + ea * S['dm']) * (q + ea * dq) / (M + ea * S['DM'])
+            return sp.diff(e, ea).subs(ea, 0)
+        e = (m + ea * S['am'] + eb * S['bm'] + ea * eb * S['abm']) * (q + ea * aq + eb * bq + ea * eb * abq) / (M + ea * S['DMA'] + eb * S['DMB'] + ea * eb * S['DDM'])
+        return sp.diff(e, ea, eb).subs({ea: 0, eb: 0})
+
+    all_loops = R.loops(fn)
+    # 1. no partial sums
+    for f in all_loops:
+        n += 1
+        for name, line in R.partial_sum_reads(f):
+            ctx.report('R20.7', 'move_to_com:partial:%s' % name, 'src/tools.c:%s reb_simulation_move_to_com' % line,
+                       'the total %s is still being accumulated by this loop when it is used: the shift of the variational particles is computed from a partial sum' % name)
+    # 2. totals are reductions of the right member, 3. summands
+    found = {1: 0, 2: 0}
+    for f in all_loops:
+        accs = R.accumulations(f)
+        targets = {lv.replace(' ', '') for lv, op, rhs, ln in accs}
+        if 'com_shift.x' not in targets:
+            # a loop computing totals?
+            for lv, op, rhs, ln in accs:
+                want = {'dm': 'particles[(i+index)].m', 'dma': 'particles[(i+index_1st_order_a)].m', 'dmb': 'particles[(i+index_1st_order_b)].m', 'ddm': 'particles[(i+index)].m'}
+                if lv in want:
+                    n += 1
+                    got = render(rhs).replace(' ', '')
+                    if got != want[lv] or op != '+=':
+                        ctx.report('R20.7', 'move_to_com:total:%s' % lv, 'src/tools.c:%s reb_simulation_move_to_com' % ln,
+                                   'the total %s is accumulated from %s %s, expected += %s (the mass variation of that configuration)' % (lv, op, got, want[lv]))
+            continue
+        text = ' '.join(render(rhs) for lv, op, rhs, ln in accs)
+        order = 2 if 'index_1st_order_a' in text else 1
+        found[order] += 1
+
+        def leaf(pth, order=order):
+            t = {'com.m': M, 'particles[i].m': m, 'particles[i].x': x, 'particles[i].vx': v}
+            if order == 1:
+                t.update({'particles[(i+index)].m': S['dm'], 'particles[(i+index)].x': S['dx'], 'particles[(i+index)].vx': S['dv'], 'dm': S['DM']})
+            else:
+                t.update({'particles[(i+index)].m': S['abm'], 'particles[(i+index)].x': S['abx'], 'particles[(i+index)].vx': S['abv'],
+                          'particles[(i+index_1st_order_a)].m': S['am'], 'particles[(i+index_1st_order_a)].x': S['ax'], 'particles[(i+index_1st_order_a)].vx': S['av'],
+                          'particles[(i+index_1st_order_b)].m': S['bm'], 'particles[(i+index_1st_order_b)].x': S['bx'], 'particles[(i+index_1st_order_b)].vx': S['bv'],
+                          'dma': S['DMA'], 'dmb': S['DMB'], 'ddm': S['DDM']})
+            return t[pth]
+        for comp, q, names in (('x', x, ('dx', 'ax', 'bx', 'abx')), ('vx', v, ('dv', 'av', 'bv', 'abv'))):
+            n += 1
+            try:
+                got, k = R.summand(f, 'com_shift.' + comp, leaf)
+            except KeyError as ex:
+                raise AnalysisError('R20.7: unexpected operand in the order-%d loop of move_to_com: %s' % (order, ex))
+            want = spec(order, q, S[names[0]], S[names[1]], S[names[2]], S[names[3]])
+            res = sp.simplify(sp.expand(got - want))
+            where = 'src/tools.c:%s reb_simulation_move_to_com' % line_of(f)
+            if res != 0:
+                ctx.report('R20.7', 'move_to_com:order%d:%s' % (order, comp), where,
+                           'the %d terms added to com_shift.%s per particle do not add up to the order-%d derivative of m*%s/M: difference %s' % (k, comp, order, comp, str(res)[:200]))
+            else:
+                samples.append('%s: %d terms of com_shift.%s sum to the order-%d derivative of the centre of mass' % (where, k, comp, order))
+    anchor(found[1] >= 1 and found[2] >= 1, 'first- and second-order shift loops in reb_simulation_move_to_com')
+    ctx.covered('R20.7', 'move_to_com: totals come from completed loops over the right member; the summands of the first- and second-order shift equal the derivatives of the centre of mass (x and vx; y, z by R20.6)',
+                n, floor=12, samples=samples)
+
+
 def run(ctx):
+    rule_com_variations(ctx)
     rule_unit_dimensions(ctx)
     rule_unit_tables(ctx)
     rule_units_setter(ctx)
